@@ -21,9 +21,10 @@ SKIP_BODIES = r"^(<)?mmap::xen::_::"
 VM = r"^volatile_memory::"
 EDGES = [
     # ------------------------------------------------------------------ address.rs
-    (r"^address::Address::checked_align_up$", r"diverge", r"assert_failed!assert_(ne|eq)", "P",
-     "documented: panics unless power_of_two is a non-zero power of two — a program constant (page size), never guest data"),
-    (r"^address::Address::(checked|unchecked)_align_up$", r"arith_generic", r"^Sub::sub\(\$2,AddressValue::one\(\)\)$", "P",
+    (r"^address::Address::\w*align\w*$", r"diverge", r"assert_failed!assert_(ne|eq)", "P",
+     "the alignment helpers of the Address trait (checked_align_up and its siblings) panic unless their alignment argument is a "
+     "non-zero power of two — documented; a program constant (page size), never guest data"),
+    (r"^address::Address::\w*align\w*$", r"arith_generic", r"^Sub::sub\(\$\d,AddressValue::one\(\)\)$", "P",
      "`power_of_two - 1` on the generic value type: power_of_two is a non-zero program constant (documented contract, asserted right after)"),
     (r"^address::Address::unchecked_align_up$", r"unchecked_addr", r"Address::unchecked_add", "P",
      "documented unchecked API; no in-crate caller"),
